@@ -26,8 +26,19 @@ package zapcore
 //@   modifies nothing
 //@   ensures result == enabled(self, arg0)
 
+// Core.Check(ent, ce): a core either declines (returns ce unchanged) or adds cores to the
+// checked entry (AddCore semantics). It performs no Write/Sync. Stated for every
+// implementation, including user-supplied ones (encapsulation rely).
 //@ iface zapcore.Core.Check
-//@   modifies $all
+//@   params ent ce
+//@   modifies $user, zapcore.CheckedEntry.cores, comp(E:zapcore.Core)
+//@   ensures ce != nil ==> result == ce
+//@   ensures ce == nil && result != nil ==> fresh(result)
+//@   ensures result != nil ==> len(result.cores) >= (ce == nil ? 0 : old(len(ce.cores)))
+//@   ensures ce != nil ==> forall i int :: 0 <= i && i < old(len(ce.cores)) ==> result.cores[i] == old(ce.cores[i])
+//@   ensures result != nil ==> (ce != nil && arr(result.cores) == old(arr(ce.cores))) || arr(result.cores) == nil || fresh(result.cores)
+//@   ensures result != nil ==> forall i int :: 0 <= i && i < len(result.cores) ==> result.cores[i] != nil
+//@   ensures elems_frame(type(zapcore.Core), result == nil ? zero(type([]zapcore.Core)) : result.cores)
 
 //@ iface zapcore.WriteSyncer.Write
 //@   modifies $user
@@ -245,3 +256,229 @@ package zapcore
 //@   ensures #ST == 1
 //@   ensures old(s.initialized) && !old(s.stopped) ==> #SY == 1 && err == SY.ret0[0]
 //@   ensures !(old(s.initialized) && !old(s.stopped)) ==> #SY == 0 && err == nil
+
+// ---------------------------------------------------------------------------
+// level.go (C05, C20)
+
+//@ spec func isLevelName(b Bytes) bool = b == "debug" || b == "info" || b == "" || b == "warn" || b == "warning" || b == "error" || b == "dpanic" || b == "panic" || b == "fatal"
+//@ spec func levelOfName(b Bytes) zapcore.Level = b == "debug" ? -1 : ((b == "info" || b == "") ? 0 : ((b == "warn" || b == "warning") ? 1 : (b == "error" ? 2 : (b == "dpanic" ? 3 : (b == "panic" ? 4 : 5)))))
+//@ spec func levelName(l zapcore.Level) Bytes = l == -1 ? "debug" : (l == 0 ? "info" : (l == 1 ? "warn" : (l == 2 ? "error" : (l == 3 ? "dpanic" : (l == 4 ? "panic" : "fatal")))))
+//@ spec func levelCapName(l zapcore.Level) Bytes = l == -1 ? "DEBUG" : (l == 0 ? "INFO" : (l == 1 ? "WARN" : (l == 2 ? "ERROR" : (l == 3 ? "DPANIC" : (l == 4 ? "PANIC" : "FATAL")))))
+
+//@ func (zapcore.Level).Enabled
+//@   props C05 C20
+//@   flags nopanic pure
+//@   ensures result <==> lvl >= l
+
+//@ func (zapcore.Level).String
+//@   props C20
+//@   flags nopanic
+//@   modifies nothing
+//@   ensures -1 <= l && l <= 5 ==> result == levelName(l)
+
+//@ func (zapcore.Level).CapitalString
+//@   props C20
+//@   flags nopanic
+//@   modifies nothing
+//@   ensures -1 <= l && l <= 5 ==> result == levelCapName(l)
+
+//@ func (*zapcore.Level).unmarshalText
+//@   props C20
+//@   flags nopanic
+//@   requires l != nil
+//@   modifies *l
+//@   ensures result <==> isLevelName(seq(text))
+//@   ensures result ==> *l == levelOfName(seq(text))
+//@   ensures !result ==> *l == old(*l)
+
+//@ func (*zapcore.Level).UnmarshalText
+//@   props C20
+//@   flags nopanic
+//@   requires errUnmarshalNilLevel != nil
+//@   modifies *l
+//@   ensures l == nil ==> result != nil
+//@   ensures l != nil ==> ((result == nil) <==> (isLevelName(seq(text)) || isLevelName(lower(seq(text)))))
+//@   ensures l != nil && isLevelName(seq(text)) ==> *l == levelOfName(seq(text))
+//@   ensures l != nil && !isLevelName(seq(text)) && isLevelName(lower(seq(text))) ==> *l == levelOfName(lower(seq(text)))
+//@   ensures l != nil && result != nil ==> *l == old(*l)
+
+//@ func (*zapcore.Level).Set
+//@   props C20
+//@   flags nopanic
+//@   requires errUnmarshalNilLevel != nil
+//@   modifies *l
+//@   ensures l != nil ==> ((result == nil) <==> (isLevelName(s) || isLevelName(lower(s))))
+//@   ensures l != nil && isLevelName(s) ==> *l == levelOfName(s)
+//@   ensures l != nil && result != nil ==> *l == old(*l)
+
+//@ func zapcore.ParseLevel
+//@   props C20
+//@   flags nopanic
+//@   requires errUnmarshalNilLevel != nil
+//@   ensures (result.1 == nil) <==> (isLevelName(text) || isLevelName(lower(text)))
+//@   ensures isLevelName(text) ==> result.0 == levelOfName(text)
+//@   ensures !isLevelName(text) && isLevelName(lower(text)) ==> result.0 == levelOfName(lower(text))
+
+//@ iface zapcore.leveledEnabler.Level
+//@   modifies nothing
+
+//@ func zapcore.LevelOf
+//@   props C05
+//@   flags nopanic
+//@   requires enab != nil
+//@   track LV = invoke zapcore.leveledEnabler.Level
+//@   modifies nothing
+//@   ensures implements(enab, type(leveledEnabler)) ==> #LV == 1 && LV.recv[0] == enab && result == LV.ret0[0]
+//@   ensures !implements(enab, type(leveledEnabler)) ==> #LV == 0
+//@   ensures !implements(enab, type(leveledEnabler)) ==> ((result == InvalidLevel) <==> (forall l zapcore.Level :: _minLevel <= l && l <= _maxLevel ==> !enabled(enab, l)))
+//@   ensures !implements(enab, type(leveledEnabler)) && result != InvalidLevel ==> _minLevel <= result && result <= _maxLevel && enabled(enab, result) && (forall l zapcore.Level :: _minLevel <= l && l < result ==> !enabled(enab, l))
+//@   loop 1 invariant _minLevel <= lvl && lvl <= _maxLevel + 1 && #LV == 0 && (forall l zapcore.Level :: _minLevel <= l && l < lvl ==> !enabled(enab, l))
+
+// ---------------------------------------------------------------------------
+// entry.go: CheckedEntry bookkeeping (C05, C06, C08, C10)
+
+//@ func (*zapcore.CheckedEntry).reset
+//@   props C08
+//@   flags nopanic
+//@   requires ce != nil
+//@   modifies ce.Entry, ce.ErrorOutput, ce.dirty, ce.after, ce.cores, elems(ce.cores)
+//@   ensures ce.Entry == zero(type(Entry)) && ce.ErrorOutput == nil && !ce.dirty && ce.after == nil && len(ce.cores) == 0
+//@   ensures arr(ce.cores) == old(arr(ce.cores))
+//@   ensures elems_frame(type(Core), old(ce.cores))
+//@   ensures forall i int :: 0 <= i && i < old(len(ce.cores)) ==> old(ce.cores)[i] == nil
+//@   loop 1 invariant 0 <= $idx && $idx <= len(ce.cores) && ce.cores == old(ce.cores) && ce.after == nil && !ce.dirty && ce.ErrorOutput == nil && ce.Entry == zero(type(Entry))
+//@   loop 1 invariant forall i int :: 0 <= i && i < $idx ==> ce.cores[i] == nil
+//@   loop 1 invariant elems_frame(type(Core), ce.cores)
+
+//@ func zapcore.getCheckedEntry
+//@   props C08 C05
+//@   flags nopanic
+//@   requires _cePool != nil
+//@   modifies comp(E:zapcore.Core)
+//@   ensures fresh(result) && result.Entry == zero(type(Entry)) && result.ErrorOutput == nil && !result.dirty && result.after == nil && len(result.cores) == 0
+//@   ensures arr(result.cores) == nil || fresh(result.cores)
+//@   ensures elems_frame(type(Core), result.cores)
+
+//@ func (*zapcore.CheckedEntry).AddCore
+//@   props C05 C08
+//@   flags nopanic
+//@   requires _cePool != nil
+//@   modifies ce.cores, comp(E:zapcore.Core)
+//@   ensures ce != nil ==> result == ce && result.Entry == old(ce.Entry) && result.after == old(ce.after) && result.dirty == old(ce.dirty) && result.ErrorOutput == old(ce.ErrorOutput)
+//@   ensures ce == nil ==> fresh(result) && result.Entry == ent && result.after == nil && !result.dirty && result.ErrorOutput == nil
+//@   ensures len(result.cores) == (ce == nil ? 0 : old(len(ce.cores))) + 1
+//@   ensures result.cores[len(result.cores) - 1] == core
+//@   ensures ce != nil ==> forall i int :: 0 <= i && i < old(len(ce.cores)) ==> result.cores[i] == old(ce.cores[i])
+//@   ensures (ce != nil && arr(result.cores) == old(arr(ce.cores))) || fresh(result.cores)
+//@   ensures elems_frame(type(Core), result.cores)
+
+// ---------------------------------------------------------------------------
+// core.go, tee.go, increase_level.go, hook.go: Check / Enabled / Level (C05)
+
+//@ func (*zapcore.ioCore).Check
+//@   props C05
+//@   flags nopanic
+//@   requires c != nil && c.LevelEnabler != nil && _cePool != nil
+//@   track ADD = call (*zapcore.CheckedEntry).AddCore
+//@   track WR = invoke zapcore.WriteSyncer.Write
+//@   track EE = invoke zapcore.Encoder.EncodeEntry
+//@   ensures #WR == 0 && #EE == 0
+//@   ensures enabled(c.LevelEnabler, ent.Level) ==> #ADD == 1 && ADD.recv[0] == ce && ADD.arg0[0] == ent && ADD.arg1[0] == iface(type(*ioCore), c) && result == ADD.ret0[0]
+//@   ensures !enabled(c.LevelEnabler, ent.Level) ==> #ADD == 0 && result == ce
+
+//@ func (zapcore.multiCore).Check
+//@   props C05 C04
+//@   flags nopanic
+//@   requires forall k int :: 0 <= k && k < len(mc) ==> mc[k] != nil
+//@   requires ce != nil ==> root(arr(ce.cores)) != root(arr(mc))
+//@   track CK = invoke zapcore.Core.Check
+//@   ensures #CK == len(mc)
+//@   ensures forall k int :: 0 <= k && k < len(mc) ==> CK.recv[k] == old(mc[k]) && CK.arg0[k] == ent
+//@   ensures len(mc) > 0 ==> CK.arg1[0] == ce && result == CK.ret0[len(mc) - 1]
+//@   ensures forall k int :: 0 < k && k < len(mc) ==> CK.arg1[k] == CK.ret0[k - 1]
+//@   ensures len(mc) == 0 ==> result == ce
+//@   loop 1 invariant 0 <= $idx && $idx <= len(mc) && #CK == $idx
+//@   loop 1 invariant forall k int :: 0 <= k && k < len(mc) ==> mc[k] == old(mc[k])
+//@   loop 1 invariant forall k int :: 0 <= k && k < $idx ==> CK.recv[k] == old(mc[k]) && CK.arg0[k] == ent
+//@   loop 1 invariant $idx == 0 ==> ce == param(ce)
+//@   loop 1 invariant $idx > 0 ==> CK.arg1[0] == param(ce) && ce == CK.ret0[$idx - 1]
+//@   loop 1 invariant forall k int :: 0 < k && k < $idx ==> CK.arg1[k] == CK.ret0[k - 1]
+//@   loop 1 invariant ce != nil ==> root(arr(ce.cores)) != root(arr(mc))
+
+//@ func (zapcore.multiCore).Enabled
+//@   props C05
+//@   flags nopanic
+//@   requires forall k int :: 0 <= k && k < len(mc) ==> mc[k] != nil
+//@   modifies nothing
+//@   ensures result <==> (exists k int :: 0 <= k && k < len(mc) && enabled(mc[k], lvl))
+//@   loop 1 invariant 0 <= $idx && $idx <= len(mc) && (forall k int :: 0 <= k && k < $idx ==> !enabled(mc[k], lvl))
+
+//@ func (*zapcore.levelFilterCore).Enabled
+//@   props C05
+//@   flags nopanic
+//@   requires c != nil && c.level != nil
+//@   modifies nothing
+//@   ensures result == enabled(c.level, lvl)
+
+//@ func (*zapcore.levelFilterCore).Level
+//@   props C05
+//@   flags nopanic
+//@   requires c != nil && c.level != nil
+//@   track LO = call zapcore.LevelOf
+//@   modifies nothing
+//@   ensures #LO == 1 && LO.arg0[0] == c.level && result == LO.ret0[0]
+
+//@ func (*zapcore.levelFilterCore).Check
+//@   props C05
+//@   flags nopanic
+//@   requires c != nil && c.level != nil && c.core != nil
+//@   track CK = invoke zapcore.Core.Check
+//@   ensures !enabled(old(c.level), ent.Level) ==> #CK == 0 && result == ce
+//@   ensures enabled(old(c.level), ent.Level) ==> #CK == 1 && CK.recv[0] == old(c.core) && CK.arg0[0] == ent && CK.arg1[0] == ce && result == CK.ret0[0]
+
+//@ func zapcore.NewIncreaseLevelCore
+//@   props C05
+//@   flags nopanic
+//@   requires core != nil && level != nil
+//@   ensures result.1 == nil ==> (forall l zapcore.Level :: _minLevel <= l && l <= _maxLevel && enabled(level, l) ==> enabled(core, l))
+//@   ensures result.1 == nil ==> typeof(result.0) == type(*levelFilterCore) && as(result.0, type(*levelFilterCore)).core == core && as(result.0, type(*levelFilterCore)).level == level
+//@   ensures result.1 != nil ==> result.0 == nil && (exists l zapcore.Level :: _minLevel <= l && l <= _maxLevel && enabled(level, l) && !enabled(core, l))
+//@   loop 1 invariant _minLevel - 1 <= l && l <= _maxLevel && (forall k zapcore.Level :: l < k && k <= _maxLevel && enabled(level, k) ==> enabled(core, k))
+
+// hooked.Check, from the property statement: the hook core is added exactly when the wrapped
+// core accepted the entry, i.e. when the wrapped Check added at least one core.
+//@ func (*zapcore.hooked).Check
+//@   props C05
+//@   flags nopanic
+//@   requires h != nil && h.Core != nil && _cePool != nil
+//@   track CK = invoke zapcore.Core.Check
+//@   track ADD = call (*zapcore.CheckedEntry).AddCore
+//@   ensures #CK == 1 && CK.recv[0] == old(h.Core) && CK.arg0[0] == ent && CK.arg1[0] == ce
+//@   ensures CK.ret0[0] == nil ==> #ADD == 0 && result == nil
+//@   ensures CK.ret0[0] != nil ==> result != nil && #ADD <= 1 && ((#ADD == 1) <==> (len(result.cores) - #ADD > (ce == nil ? 0 : old(len(ce.cores)))))
+//@   ensures #ADD == 1 ==> ADD.recv[0] == CK.ret0[0] && ADD.arg1[0] == iface(type(*hooked), h) && result == ADD.ret0[0]
+//@   ensures #ADD == 0 ==> result == CK.ret0[0]
+
+//@ func (*zapcore.hooked).Level
+//@   props C05
+//@   flags nopanic
+//@   requires h != nil && h.Core != nil
+//@   track LO = call zapcore.LevelOf
+//@   modifies nothing
+//@   ensures #LO == 1 && LO.arg0[0] == h.Core && result == LO.ret0[0]
+
+//@ func (*zapcore.ioCore).Level
+//@   props C05
+//@   flags nopanic
+//@   requires c != nil && c.LevelEnabler != nil
+//@   track LO = call zapcore.LevelOf
+//@   modifies nothing
+//@   ensures #LO == 1 && LO.arg0[0] == c.LevelEnabler && result == LO.ret0[0]
+
+//@ func (*zapcore.sampler).Level
+//@   props C05
+//@   flags nopanic
+//@   requires s != nil && s.Core != nil
+//@   track LO = call zapcore.LevelOf
+//@   modifies nothing
+//@   ensures #LO == 1 && LO.arg0[0] == s.Core && result == LO.ret0[0]
